@@ -145,12 +145,12 @@ theorem inv_setW {fx : Fix} {s : St} (h : Inv fx s) (c : Nat) (v : W) (ls : Bool
   · exact h.panic_tries
 
 /-- a handler that holds no work connection moves to a state that holds none -/
-theorem inv_setU {fx : Fix} {s : St} (h : Inv fx s) (u : Nat) (x : U) (r : Nat)
+theorem inv_setU {fx : Fix} {s : St} (h : Inv fx s) (u : Nat) (x : U) (r q : Nat)
     (hold1 : ∀ k c, s.u.get u ≠ some (.holding k c)) (hold2 : ∀ c, s.u.get u ≠ some (.bridged c))
     (hx1 : ∀ k c, x ≠ .holding k c) (hx2 : ∀ c, x ≠ .bridged c)
     (hx3 : ∀ k t, x = .waiting k t → t ≤ s.T ∧ k < tries s.pc)
     (hx4 : ∀ k, x = .accepted k → k < tries s.pc) :
-    Inv fx { s with u := s.u.set u x, reqs := r } := by
+    Inv fx { s with u := s.u.set u x, reqs := r, ureq := q } := by
   constructor
   · exact h.nodup
   · exact h.pooled_iff
@@ -195,11 +195,11 @@ theorem inv_setU {fx : Fix} {s : St} (h : Inv fx s) (u : Nat) (x : U) (r : Nat)
 
 
 /-- a handler that holds nothing receives the head of the pool -/
-theorem inv_recv {fx : Fix} {s : St} (h : Inv fx s) (u k c : Nat) (rest : List Nat) (r : Nat)
+theorem inv_recv {fx : Fix} {s : St} (h : Inv fx s) (u k c : Nat) (rest : List Nat) (r q : Nat)
     (hp : s.pool = c :: rest)
     (hold1 : ∀ k c, s.u.get u ≠ some (.holding k c)) (hold2 : ∀ c, s.u.get u ≠ some (.bridged c))
     (hk : k < tries s.pc) :
-    Inv fx { s with pool := rest, w := s.w.set c (.taken u), u := s.u.set u (.holding k c), reqs := r } := by
+    Inv fx { s with pool := rest, w := s.w.set c (.taken u), u := s.u.set u (.holding k c), reqs := r, ureq := q } := by
   have hnd := h.nodup
   rw [hp] at hnd
   have hcn : c ∉ rest := (List.nodup_cons.1 hnd).1
@@ -437,9 +437,10 @@ theorem inv_bridge {fx : Fix} {s : St} (h : Inv fx s) (u k c : Nat)
   · exact h.panic_tries
 
 
-theorem inv_flags {fx : Fix} {s : St} (h : Inv fx s) (dd pcl po im pan : Bool)
+theorem inv_flags {fx : Fix} {s : St} (h : Inv fx s) (dd pcl po im pan : Bool) (px : List Nat) (pxc : Bool)
     (h1 : s.drained = true → pcl = true) (h2 : pcl = true → dd = true) (h3 : pan = true → tries s.pc = 0) :
-    Inv fx { s with dispDone := dd, poolClosed := pcl, proxyOpen := po, inManager := im, panicked := pan } := by
+    Inv fx { s with dispDone := dd, poolClosed := pcl, proxyOpen := po, inManager := im, panicked := pan,
+                    px := px, pxClosed := pxc } := by
   constructor
   · exact h.nodup
   · exact h.pooled_iff
@@ -549,10 +550,10 @@ theorem inv_recvFor {fx : Fix} {s s' : St} {r : Res} (h : Inv fx s) (u k : Nat)
   split at hr
   · rename_i c rest hp
     cases hr
-    exact inv_recv h u k c rest _ hp hold1 hold2 hk
+    exact inv_recv h u k c rest _ _ hp hold1 hold2 hk
   · split at hr
     · cases hr
-      exact inv_setU h u .closed s.reqs hold1 hold2 (by intro _ _ e; cases e) (by intro _ e; cases e)
+      exact inv_setU h u .closed s.reqs s.ureq hold1 hold2 (by intro _ _ e; cases e) (by intro _ e; cases e)
         (by intro _ _ e; cases e) (by intro _ e; cases e)
     · cases hr
 
@@ -633,11 +634,11 @@ theorem inv_step {fx : Fix} {s s' : St} {l : Label} {r : Res} (h : Inv fx s)
       split at hs
       · rename_i ht
         cases hs
-        exact inv_flags h s.dispDone s.poolClosed s.proxyOpen s.inManager true
+        exact inv_flags h s.dispDone s.poolClosed s.proxyOpen s.inManager true s.px s.pxClosed
           (fun hd => (h.drained_empty hd).2) h.closed_disp (fun _ => ht)
       · rename_i ht
         cases hs
-        exact inv_setU h u (.accepted 0) s.reqs (by intro k c; rw [hn]; simp) (by intro c; rw [hn]; simp)
+        exact inv_setU h u (.accepted 0) s.reqs s.ureq (by intro k c; rw [hn]; simp) (by intro c; rw [hn]; simp)
           (by intro _ _ e; cases e) (by intro _ e; cases e) (by intro _ _ e; cases e)
           (by intro k e; cases e; omega)
   | take u =>
@@ -659,13 +660,13 @@ theorem inv_step {fx : Fix} {s s' : St} {l : Label} {r : Res} (h : Inv fx s)
         · cases hs
         · split at hs
           · cases hs
-            exact inv_setU h u (.waiting k 0) _ (by intro k' c; rw [hu]; simp) (by intro c; rw [hu]; simp)
+            exact inv_setU h u (.waiting k 0) _ _ (by intro k' c; rw [hu]; simp) (by intro c; rw [hu]; simp)
               (by intro _ _ e; cases e) (by intro _ e; cases e)
               (by intro k' t e; cases e; exact ⟨Nat.zero_le _, h.idx_lt u k (Or.inl hu)⟩)
               (by intro _ e; cases e)
           · split at hs
             · cases hs
-              exact inv_setU h u .closed s.reqs (by intro k' c; rw [hu]; simp) (by intro c; rw [hu]; simp)
+              exact inv_setU h u .closed s.reqs s.ureq (by intro k' c; rw [hu]; simp) (by intro c; rw [hu]; simp)
                 (by intro _ _ e; cases e) (by intro _ e; cases e) (by intro _ _ e; cases e)
                 (by intro _ e; cases e)
             · cases hs
@@ -687,7 +688,7 @@ theorem inv_step {fx : Fix} {s s' : St} {l : Label} {r : Res} (h : Inv fx s)
       · rename_i k t hu
         split at hs
         · cases hs
-          exact inv_setU h u .closed s.reqs (by intro k' c; rw [hu]; simp) (by intro c; rw [hu]; simp)
+          exact inv_setU h u .closed s.reqs s.ureq (by intro k' c; rw [hu]; simp) (by intro c; rw [hu]; simp)
             (by intro _ _ e; cases e) (by intro _ e; cases e) (by intro _ _ e; cases e)
             (by intro _ e; cases e)
         · cases hs
@@ -736,7 +737,7 @@ theorem inv_step {fx : Fix} {s s' : St} {l : Label} {r : Res} (h : Inv fx s)
     split at hs
     · cases hs
     · cases hs
-      exact inv_flags h true s.poolClosed s.proxyOpen s.inManager s.panicked
+      exact inv_flags h true s.poolClosed s.proxyOpen s.inManager s.panicked s.px s.pxClosed
         (fun hd => (h.drained_empty hd).2) (fun _ => rfl) h.panic_tries
   | closePool =>
     simp only [step] at hs
@@ -748,7 +749,7 @@ theorem inv_step {fx : Fix} {s s' : St} {l : Label} {r : Res} (h : Inv fx s)
         cases hg : s.dispDone with
         | true => rfl
         | false => exact absurd (Or.inr (Or.inl hg)) hc
-      exact inv_flags h s.dispDone true s.proxyOpen s.inManager s.panicked
+      exact inv_flags h s.dispDone true s.proxyOpen s.inManager s.panicked s.px s.pxClosed
         (fun _ => rfl) (fun _ => hd) h.panic_tries
   | drain =>
     simp only [step] at hs
@@ -766,20 +767,83 @@ theorem inv_step {fx : Fix} {s s' : St} {l : Label} {r : Res} (h : Inv fx s)
     split at hs
     · cases hs
     · cases hs
-      exact inv_flags h s.dispDone s.poolClosed false s.inManager s.panicked
+      exact inv_flags h s.dispDone s.poolClosed false s.inManager s.panicked [] true
         (fun hd => (h.drained_empty hd).2) h.closed_disp h.panic_tries
   | del =>
     simp only [step] at hs
     split at hs
     · cases hs
     · cases hs
-      exact inv_flags h s.dispDone s.poolClosed s.proxyOpen false s.panicked
+      exact inv_flags h s.dispDone s.poolClosed s.proxyOpen false s.panicked s.px s.pxClosed
         (fun hd => (h.drained_empty hd).2) h.closed_disp h.panic_tries
+  | regProxy p =>
+    simp only [step] at hs
+    split at hs
+    · cases hs
+    · split at hs
+      · split at hs
+        · cases hs
+        · cases hs
+          exact inv_flags h s.dispDone s.poolClosed true s.inManager s.panicked s.px s.pxClosed
+            (fun hd => (h.drained_empty hd).2) h.closed_disp h.panic_tries
+      · split at hs
+        · cases hs
+        · cases hs
+          exact inv_flags h s.dispDone s.poolClosed s.proxyOpen s.inManager s.panicked (p :: s.px) s.pxClosed
+            (fun hd => (h.drained_empty hd).2) h.closed_disp h.panic_tries
+  | closeProxy p =>
+    simp only [step] at hs
+    split at hs
+    · cases hs
+    · split at hs
+      · split at hs
+        · cases hs
+          exact inv_flags h s.dispDone s.poolClosed false s.inManager s.panicked s.px s.pxClosed
+            (fun hd => (h.drained_empty hd).2) h.closed_disp h.panic_tries
+        · cases hs
+      · split at hs
+        · cases hs
+          exact inv_flags h s.dispDone s.poolClosed s.proxyOpen s.inManager s.panicked (s.px.erase p) s.pxClosed
+            (fun hd => (h.drained_empty hd).2) h.closed_disp h.panic_tries
+        · cases hs
+
+/-! ### accounting of ReqWorkConn over the whole session history -/
+
+/-- every ReqWorkConn is either one of the `advance pc` requests of `Start()` or was sent by GetWorkConn
+    on behalf of a user connection; registering and closing proxies never asks for anything -/
+structure Acct (s : St) : Prop where
+  adv_eq : s.adv = advance s.pc
+  reqs_eq : s.reqs = s.adv + s.ureq
+
+theorem acct_init (pc : Int) (T : Nat) : Acct (init pc T) := ⟨rfl, rfl⟩
+
+theorem acct_bump {s : St} (h : Acct s) (b : Bool) :
+    (if b = true then s.reqs else s.reqs + 1) = s.adv + (if b = true then s.ureq else s.ureq + 1) := by
+  have := h.reqs_eq
+  cases b <;> simp <;> omega
+
+syntax "acct_cases " ident ident : tactic
+macro_rules
+  | `(tactic| acct_cases $h $hs) =>
+    `(tactic| first
+      | (cases $hs:ident; exact ⟨($h).adv_eq, ($h).reqs_eq⟩)
+      | (cases $hs:ident; exact ⟨($h).adv_eq, acct_bump $h _⟩)
+      | (cases $hs:ident)
+      | (split at $hs:ident <;> acct_cases $h $hs))
+
+theorem acct_step {fx : Fix} {s s' : St} {l : Label} {r : Res} (h : Acct s)
+    (hs : step fx s l = some (s', r)) : Acct s' := by
+  cases l <;> simp only [step, recvFor] at hs <;> acct_cases h hs
 
 theorem inv_reach {fx : Fix} {pc : Int} {T : Nat} {s : St} (h : Reach fx pc T s) : Inv fx s := by
   induction h with
   | init => exact inv_init fx pc T
   | step _ hs ih => exact inv_step ih hs
+
+theorem acct_reach {fx : Fix} {pc : Int} {T : Nat} {s : St} (h : Reach fx pc T s) : Acct s := by
+  induction h with
+  | init => exact acct_init pc T
+  | step _ hs ih => exact acct_step ih hs
 
 end Pool
 end Frp
